@@ -295,7 +295,17 @@ impl Prop for EngineSpeed {
             return Ok(Report::rejected("too-long"));
         }
         let (lo, hi) = if c.speed == 1.0 { (f1, f1) } else { round_candidates(f1 / c.speed, 1e-9) };
-        let g = match engine.generator(c.labels.as_slice()) {
+        // a third of the cases (chosen by the utterance length): the lines carry time stamps -
+        // which mean nothing while alignment is off, the speed law is unchanged
+        let stamped: Vec<String>;
+        let lines: &[String] = if c.labels.len() % 3 == 1 {
+            let frame_100ns = engine.condition.get_fperiod() as f64 * 1e7 / engine.condition.get_sampling_frequency() as f64;
+            stamped = c.labels.iter().enumerate().map(|(i, l)| format!("{} {} {}", (i as f64 * 7.0 * frame_100ns).round(), ((i + 1) as f64 * 7.0 * frame_100ns).round(), l)).collect();
+            &stamped
+        } else {
+            &c.labels
+        };
+        let g = match engine.generator(lines) {
             Ok(g) => g,
             Err(e) => fail!("generator", "generator failed: {}", e),
         };
@@ -316,6 +326,7 @@ impl Prop for EngineSpeed {
         rep.nontrivial = c.speed != 1.0;
         rep.class(c.voice.class());
         rep.class_if(frames == nstates, "floor-all-ones");
+        rep.class_if(c.labels.len() % 3 == 1, "time-stamped-lines-alignment-off");
         rep.class_if((c.speed - 1.0).abs() < 1e-2 && c.speed != 1.0, "speed-near-1");
         rep.class_if((c.speed - 1.0).abs() < 1e-2 && c.speed != 1.0 && (f1 / c.speed).round() != f1, "speed-near-1-and-total-differs");
         Ok(rep)
